@@ -2,10 +2,14 @@
 from .. import common as C, generic as G
 
 TRUSTED = ['Coq 8.16.1 kernel + vm_compute', 'translator/py2coq.py + translator/tables.py', 'Coq Reals: all algebraic statements are exact-real; LAPACK least-squares/QR/SVD are oracles (not modelled); rounding and conditioning are only validated', 'oracle harness harness/oracles/C06.py']
-PERRUN = ['C06.v']
-GEN = ('Gen_tables',)
+# the regularised objective is stored by the Model methods (C17: each stored objective is sum(r^2) + h at the stored point) and
+# committed at the sites C03 checks: both files are compiled here as well
+PERRUN = ['Char_model.v', 'C17.v', 'C03.v', 'C06.v']
+GEN = ('Gen_util', 'Gen_model', 'Gen_tables')
 LEVEL = 'other'
-EXPLANATION = 'obligations: translation of the anchored functions + theorems listed in coverage.theorems; the remaining clauses are validated by the oracle sweep only'
+EXPLANATION = ('proved on regenerated code: the Model stores sum(r^2) + h at the stored point and keeps it consistent under every operation (C17), every commit site passes the evaluated point (C03), '
+               'callbacks receive exactly their arguments on a fresh temporary, the regularised subproblem gets the true box, a model increase gives the zero step. '
+               'validated by the oracle sweep only: convergence to within 1e-3 (1+F*) and the success flag')
 
 
 def run(ctx):
